@@ -265,9 +265,9 @@ def main(tier):
                              de.project, de.distance_point_to_segment, de.distance_segment_to_segment, de.distance, dll.distance_point_to_segment)
     from symx.common import fit_budget
     budget = fit_budget(len(real_instances(tier)), tier, 100, 100)
-    rres = run_instances(run_instance, [('greal',) + i + (budget,) for i in real_instances(tier)])
     kb = 60 if tier == 'quick' else 600
-    rres = list(rres) + list(run_instances(run_instance, [('latlon_kernel', k, kb) for k in ('dps_short_equator', 'dps_short_meridian', 'dps_near_start', 'dps_near_end')]))
+    rres = run_instances(run_instance, [('latlon_kernel', k, kb) for k in ('dps_short_equator', 'dps_short_meridian', 'dps_near_start', 'dps_near_end')]
+                         + [('greal',) + i + (budget,) for i in real_instances(tier)])
     ares = gabs.run_all(rep, run_instance, abs_instances(tier), 60 if tier == 'quick' else 600, 16 * (40 if tier == 'quick' else 600))
     rep.bounds = dict(greal="layouts %s; T=2; observations symbolic (2-D on axis-parallel layouts or x symbolic on a fixed horizontal line); thresholds symbolic; three families; non-emitting on/off" % sorted(greal.LAYOUTS if tier != 'quick' else ['line2', 'corner3', 'oneway3', 'oneway4', 'zerolen3']),
                       gabs="cut-off claims over abstract geometry incl. widening history", budget_s=budget)
